@@ -277,10 +277,13 @@ def payload_is_index(expr, path, fam, seen):
             return "Ok-payload of binary_search (index < len)"
         if F.is_call(e, "core::str::<impl str>::find", "core::str::<impl str>::rfind"):
             return "Some-payload of str::find (byte index < len)"
-    if first[0] == "Some" and len(steps) == 2 and steps[1][1] == "0":
-        # Some((idx, _)) of next() on CharIndices / Enumerate
-        if F.is_call(e, "std::iter::Iterator::next"):
-            recv_ty = F.strip(e["args"][0]).get("ty", "") + " " + e["args"][0].get("ty", "")
+    if first[0] in ("Some", "payload") and len(steps) == 2 and steps[1][1] == "0":
+        # Some((idx, _)) of next() / find(..) on CharIndices / Enumerate (possibly through by_ref())
+        if F.is_call(e, "std::iter::Iterator::next", "std::iter::Iterator::find"):
+            r0 = FL.peel(e["args"][0])
+            while F.is_call(r0, "std::iter::Iterator::by_ref"):
+                r0 = FL.peel(r0["args"][0])
+            recv_ty = F.strip(e["args"][0]).get("ty", "") + " " + e["args"][0].get("ty", "") + " " + r0.get("ty", "")
             if "CharIndices" in recv_ty or "Enumerate" in recv_ty:
                 return "index component of a char_indices()/enumerate() item"
     return None
